@@ -1,5 +1,5 @@
 """Per-property manifest texts. CLAIMED: properties with a working check."""
-HOOK_COMMITS = []
+HOOK_COMMITS = ["ae0ec72", "72101b2", "987f3d6"]
 
 NOT_CLAIMED = {}
 
